@@ -1,4 +1,5 @@
 ENTRY = dict(
+    gen=["parrots"],
     runner="C12", pkg="./cmd/c12", corr=["Corr.C12Corr"], n=dict(quick=730, thorough=4500), runner_timeout=900,
     rule="every predefined parrot (38 ClientHelloIDs accepted by UTLSIdToSpec) over loopback TCP against the scripted server "
          "(verif_server.go), which forces ONE selection at a time drawn at run time from the complement of that very connection's "
